@@ -345,6 +345,17 @@ def _literal_elements(a):
     return None
 
 
+_DEFAULT_KW = {
+    "round": {"decimals": "0"}, "div": {"rounding_mode": "None"}, "divide": {"rounding_mode": "None"}, "true_divide": {"rounding_mode": "None"},
+    "nan_to_num": {"posinf": "None", "neginf": "None"}, "add": {"alpha": "1"}, "sub": {"alpha": "1"},
+    "to": {"non_blocking": "False", "copy": "False", "memory_format": "torch.preserve_format"}, "type": {"non_blocking": "False"},
+    "clone": {"memory_format": "torch.preserve_format"}, "contiguous": {"memory_format": "torch.contiguous_format"}, "copy_": {"non_blocking": "False"},
+    "clamp": {"min": "None", "max": "None"}, "amax": {"keepdim": "False"}, "amin": {"keepdim": "False"}, "sum": {"keepdim": "False"}, "cat": {"dim": "0"}, "stack": {"dim": "0"},
+    "zeros": {"requires_grad": "False"}, "ones": {"requires_grad": "False"}, "empty": {"requires_grad": "False"}, "tensor": {"requires_grad": "False"},
+}
+_CAST_METHODS = {"short": "int16", "int": "int32", "long": "int64", "char": "int8", "byte": "uint8", "half": "float16", "float": "float32", "double": "float64", "bfloat16": "bfloat16"}
+
+
 class _Canon(ast.NodeTransformer):
     def visit_Call(self, node):
         self.generic_visit(node)
@@ -364,6 +375,29 @@ class _Canon(ast.NodeTransformer):
         if isinstance(f, ast.Name) and f.id == "tuple" and len(node.args) == 1 and not node.keywords and isinstance(node.args[0], ast.Call) \
                 and isinstance(node.args[0].func, ast.Attribute) and node.args[0].func.attr == "stride" and not node.args[0].args:
             return node.args[0]
+        # keywords that spell out the documented default of a torch function / tensor method are dropped: `torch.round(x, decimals=0)` is `torch.round(x)`
+        if node.keywords and isinstance(f, ast.Attribute) and f.attr in _DEFAULT_KW and (not isinstance(f.value, ast.Name) or f.value.id != "self"):
+            dk = _DEFAULT_KW[f.attr]
+            kept = [k for k in node.keywords if not (k.arg in dk and ast.unparse(k.value) == dk[k.arg])]
+            if len(kept) != len(node.keywords):
+                node = ast.Call(func=f, args=node.args, keywords=kept)
+        # seq.pop(-1) is seq.pop()
+        if isinstance(f, ast.Attribute) and f.attr == "pop" and len(node.args) == 1 and not node.keywords and isinstance(node.args[0], ast.UnaryOp) and isinstance(node.args[0].op, ast.USub) \
+                and isinstance(node.args[0].operand, ast.Constant) and node.args[0].operand.value == 1:
+            return ast.Call(func=f, args=[], keywords=[])
+        # shape queries have one canonical spelling: x.dim() -> x.ndim; x.size() -> x.shape; x.size(i) -> x.shape[i]; len(x.shape) -> x.ndim
+        if isinstance(f, ast.Attribute) and f.attr == "dim" and not node.args and not node.keywords:
+            return ast.Attribute(value=f.value, attr="ndim", ctx=ast.Load())
+        if isinstance(f, ast.Attribute) and f.attr == "size" and not node.keywords and len(node.args) <= 1 and not any(isinstance(a, ast.Starred) for a in node.args):
+            shp = ast.Attribute(value=f.value, attr="shape", ctx=ast.Load())
+            return shp if not node.args else ast.Subscript(value=shp, slice=node.args[0], ctx=ast.Load())
+        if isinstance(f, ast.Name) and f.id == "len" and len(node.args) == 1 and not node.keywords and isinstance(node.args[0], ast.Attribute) and node.args[0].attr == "shape":
+            return ast.Attribute(value=node.args[0].value, attr="ndim", ctx=ast.Load())
+        # dtype conversions have one canonical spelling: x.short() / x.float() / ... -> x.to(torch.int16) / x.to(torch.float32) / ...; x.type(d) -> x.to(d)
+        if isinstance(f, ast.Attribute) and not node.keywords and not node.args and f.attr in _CAST_METHODS:
+            return ast.Call(func=ast.Attribute(value=f.value, attr="to", ctx=ast.Load()), args=[ast.parse("torch." + _CAST_METHODS[f.attr], mode="eval").body], keywords=[])
+        if isinstance(f, ast.Attribute) and f.attr == "type" and len(node.args) == 1 and not node.keywords and not isinstance(node.args[0], ast.Constant):
+            return ast.Call(func=ast.Attribute(value=f.value, attr="to", ctx=ast.Load()), args=node.args, keywords=[])
         # isinstance(x, (A,)) -> isinstance(x, A)
         if isinstance(f, ast.Name) and f.id in ("isinstance", "issubclass") and len(node.args) == 2 and isinstance(node.args[1], ast.Tuple) and len(node.args[1].elts) == 1:
             node = ast.Call(func=f, args=[node.args[0], node.args[1].elts[0]], keywords=node.keywords)
@@ -787,6 +821,15 @@ class _Canon(ast.NodeTransformer):
             m = mirror.get(type(node.ops[0]))
             if m is not None:
                 node = ast.Compare(left=node.comparators[0], ops=[m()], comparators=[node.left])
+        # an integer quantity (a rank, an extent, an element count) against an integer literal: `n >= k` is `n > k - 1`, `n <= k` is `n < k + 1`
+        if len(node.ops) == 1 and isinstance(node.ops[0], (ast.GtE, ast.LtE)) and isinstance(node.comparators[0], ast.Constant) and type(node.comparators[0].value) is int:
+            l_ = node.left
+            integral = (isinstance(l_, ast.Attribute) and l_.attr in ("ndim", "bits")) or (isinstance(l_, ast.Subscript) and isinstance(l_.value, ast.Attribute) and l_.value.attr == "shape") \
+                or (isinstance(l_, ast.Call) and isinstance(l_.func, ast.Attribute) and l_.func.attr in ("numel", "nelement") and not l_.args) \
+                or (isinstance(l_, ast.Call) and isinstance(l_.func, ast.Name) and l_.func.id == "len")
+            if integral:
+                k = node.comparators[0].value
+                node = ast.Compare(left=l_, ops=[ast.Gt() if isinstance(node.ops[0], ast.GtE) else ast.Lt()], comparators=[ast.Constant(value=k - 1 if isinstance(node.ops[0], ast.GtE) else k + 1)])
         if len(node.ops) == 1 and isinstance(node.ops[0], (ast.Eq, ast.Is)):
             for a, b in ((node.left, node.comparators[0]), (node.comparators[0], node.left)):
                 if isinstance(b, ast.Constant) and isinstance(b.value, bool) and isinstance(a, ast.Call) and isinstance(a.func, ast.Name) and a.func.id == "bool" and len(a.args) == 1:
@@ -1073,7 +1116,7 @@ class _StripNoop(ast.NodeTransformer):
         self.generic_visit(node)
         f = node.func
         if isinstance(f, ast.Attribute):
-            if f.attr in ("contiguous", "detach", "clone") and not node.args and not node.keywords:
+            if f.attr in ("contiguous", "detach", "clone") and not node.args and all(k.arg == "memory_format" for k in node.keywords):
                 return f.value
             if f.attr == "to":
                 a = [ast.unparse(x) for x in node.args]
@@ -2048,6 +2091,40 @@ def inline_predicates(fn: ast.FunctionDef, lookup, depth: int = 2) -> ast.Functi
     root = copy.deepcopy(fn)
     out = T(depth).visit(root)
     return ast.fix_missing_locations(out)
+
+
+_BOOL_FN: dict = {}
+
+
+def with_boolean_helpers(fn):
+    """`fn` with the calls to module-level helpers that return a truth value (a guard moved into `_quantizes_activations(module)`) replaced
+    by their expression; helpers that compute scales stay calls (the rules look for them)."""
+    if id(fn) in _BOOL_FN:
+        return _BOOL_FN[id(fn)]
+
+    def boolean(e):
+        if isinstance(e, ast.BoolOp):
+            return all(boolean(v) for v in e.values)
+        if isinstance(e, ast.UnaryOp) and isinstance(e.op, ast.Not):
+            return True
+        if isinstance(e, ast.Compare):
+            return True
+        if isinstance(e, ast.Constant) and isinstance(e.value, bool):
+            return True
+        return isinstance(e, ast.Call) and U(e.func) in ("isinstance", "issubclass", "hasattr", "callable", "bool")
+
+    def lookup(name):
+        h = module_lookup(fn, name)
+        if isinstance(h, ast.FunctionDef) and all(r.value is not None and boolean(r.value) for r in ast.walk(h) if isinstance(r, ast.Return)):
+            return h
+        return None
+
+    inl = inline_predicates(fn, lookup)
+    for reg in (_MODULE_OF, _CLASS_OF):
+        if id(fn) in reg:
+            reg[id(inl)] = reg[id(fn)]
+    _BOOL_FN[id(fn)] = inl
+    return inl
 
 
 def views_on_inputs(fn: ast.FunctionDef, extra_names=()) -> List[ast.Call]:
